@@ -507,7 +507,14 @@ func (c *VC) strConcat(st *State, a, b *Term) *Term {
 	i := c.boundVar("i", c.idxSort())
 	in := func(n *Term) *Term { return mkAnd(c.cmp(token.LEQ, c.idxLit(0), i, it), c.cmp(token.LSS, i, n, it)) }
 	c.addFact(tTrue, mkForall([]*Term{i}, mkImplies(in(la), mkEq(mkSelect(arr, i), c.strByte(a, i)))))
-	c.addFact(tTrue, mkForall([]*Term{i}, mkImplies(in(lb), mkEq(mkSelect(arr, c.binop(token.ADD, la, i, it)), c.strByte(b, i)))))
+	// second part: quantified over the absolute position in the result, so that any read of the
+	// result instantiates it
+	p := c.boundVar("p", c.idxSort())
+	if c.mode == ModeInt {
+		c.varBounds[p.Op] = interval{bigInt(0), new(big.Int).Mul(pow2(maxLenBits), bigInt(2))}
+	}
+	c.addFact(tTrue, mkForall([]*Term{p}, mkImplies(mkAnd(c.cmp(token.LEQ, la, p, it), c.cmp(token.LSS, p, c.binop(token.ADD, la, lb, it), it)),
+		mkEq(mkSelect(arr, p), c.strByte(b, c.binop(token.SUB, p, la, it)))), mkSelect(arr, p)))
 	return mkCtor(ss, arr, c.idxLit(0), c.binop(token.ADD, la, lb, it))
 }
 
